@@ -1057,6 +1057,7 @@ class TokenizerCore:
             elif token_type == TokenType.BIT_STRING:
                 base = 2
             elif token_type == TokenType.HEREDOC_STRING:
+                line, col = self._line, self._col
                 self._advance()
 
                 if self._char == end:
@@ -1077,6 +1078,8 @@ class TokenizerCore:
                         self._advance(-1)
 
                     self._advance(-len(tag))
+                    # The speculative scan may have crossed line breaks: going back restores the position
+                    self._line, self._col = line, col
                     self._add(self.heredoc_string_alternative)
                     return True
 
